@@ -109,7 +109,7 @@ class Check:
             if f["key"].get("clause") == "crash_timeout":
                 # a watchdog timeout is only a verdict if it persists with a much longer allowance
                 # (other work on the machine can slow a run down); otherwise it is counted, not reported
-                f["replay"]["timeout"] = 90
+                f["replay"]["timeout"] = 360
                 kt, _ = self.reproduce(f["replay"], fresh=True)
                 if kt is None or kt.get("clause") != "crash_timeout":
                     self.cov["transient_timeouts_not_reproduced"] = self.cov.get("transient_timeouts_not_reproduced", 0) + 1
